@@ -103,20 +103,22 @@ def r1_entries(chk: Check) -> None:
                       "generate_one (examples fill-in, coverage-phase values) runs a Hypothesis test that is neither seeded nor derandomized: values behind a filter differ between two runs with the same seed", ase.loc())
     # 3. stateful
     loop = P.maybe_func(f"{ST_EX}:_execute_state_machine_loop") or P.func(f"{ST_EX}:execute_state_machine_loop")
-    sv = [v for _, v in assignments_to(loop.node, "seed") if v is not None]
-    chk.decide(bool(sv) and unparse(sv[0]) == "config.execution.seed", "C13.R1", loop, "stateful seed = config.execution.seed", f"seed comes from {unparse(sv[0]) if sv else '?'}", loop.loc())
     seeded = [c for c in body_calls(loop) if isinstance(c.func, ast.Call) and dotted(c.func.func) == "hypothesis.seed"]
+    if seeded and seeded[0].func.args:  # type: ignore[union-attr]
+        srcs = canon(loop, seeded[0].func.args[0])  # type: ignore[union-attr]
+        chk.decide(any(x.endswith("config.execution.seed") for x in srcs), "C13.R1", loop, "stateful seed = config.execution.seed", f"seed comes from {sorted(srcs)[:3]}", loop.loc())
     runs = [c for c in body_calls(loop) if last_attr(c) == "run" and "StateMachine" in unparse(c.func)]
     if not seeded:
         chk.violation("C13.R1", loop, "hypothesis.seed(seed)(state machine)", "the state machine runs unseeded", loop.loc())
     else:
         s = seeded[0]
-        chk.decide(unparse(s.func.args[0]) == "seed", "C13.R1", loop, "hypothesis.seed(seed)(state machine)", f"seeded with {unparse(s.func.args[0])}", loop.loc(s))  # type: ignore[union-attr]
+        sa_ = s.func.args[0] if s.func.args else None  # type: ignore[union-attr]
+        chk.decide(sa_ is not None and any(x.endswith("execution.seed") for x in canon(loop, sa_)), "C13.R1", loop, "hypothesis.seed(seed)(state machine)", f"seeded with {unparse(sa_)}", loop.loc(s))
         st = stmt_of(s)
         tgt = unparse(st.targets[0]) if isinstance(st, ast.Assign) else None
         chk.decide(bool(runs) and tgt is not None and unparse(runs[0].func).startswith(tgt + "."), "C13.R1", loop, "the seeded class is the one that runs", "run() is called on the unseeded class", loop.loc())
         p_ = parent(st) if st is not None else None
-        chk.decide(isinstance(p_, ast.If) and unparse(p_.test) == "seed is not None", "C13.R1", loop, "unseeded branch only when no seed is configured", "guard not recognised", loop.loc())
+        chk.decide(isinstance(p_, ast.If) and (m_ := pmatch("$s is not None", p_.test)) is not None and same_var(m_["s"], sa_), "C13.R1", loop, "unseeded branch only when no seed is configured", "guard not recognised", loop.loc())
 
 
 def r2_entropy(chk: Check) -> None:
@@ -226,13 +228,15 @@ def r4_seed_flow(chk: Check) -> None:
     chk.rule("C13.R4", "the stateful seed changes only deterministically (incremented in the loop head); the CLI picks a seed whenever none is given and not in deterministic mode, and passes it on", floor=4)
     P = chk.project
     loop = P.maybe_func(f"{ST_EX}:_execute_state_machine_loop") or P.func(f"{ST_EX}:execute_state_machine_loop")
-    writes = [n for n in walk_body(loop.node) if isinstance(n, (ast.AugAssign, ast.Assign)) and any(isinstance(t, ast.Name) and t.id == "seed" for t in (n.targets if isinstance(n, ast.Assign) else [n.target]))]
+    seeded_ = [c for c in body_calls(loop) if isinstance(c.func, ast.Call) and dotted(c.func.func) == "hypothesis.seed" and c.func.args and isinstance(c.func.args[0], ast.Name)]
+    seed_var = seeded_[0].func.args[0].id if seeded_ else "seed"  # type: ignore[union-attr]
+    writes = [n for n in walk_body(loop.node) if isinstance(n, (ast.AugAssign, ast.Assign)) and any(isinstance(t, ast.Name) and t.id == seed_var for t in (n.targets if isinstance(n, ast.Assign) else [n.target]))]
     for w in writes:
         if isinstance(w, ast.AugAssign):
             chk.decide(isinstance(w.op, ast.Add) and isinstance(w.value, ast.Constant), "C13.R4", loop, f"{norm(w)}", "seed is changed by a non-constant amount", loop.loc(w))
         else:
             t = unparse(w.value)
-            chk.decide(t == "config.execution.seed" or (isinstance(w.value, ast.BinOp) and "seed" in names_in(w.value) and not any(isinstance(c, ast.Call) for c in ast.walk(w.value))), "C13.R4", loop, f"{norm(w)}", f"seed is re-bound to {t}", loop.loc(w))
+            chk.decide(t.endswith("config.execution.seed") or (isinstance(w.value, ast.BinOp) and seed_var in names_in(w.value) and not any(isinstance(c, ast.Call) for c in ast.walk(w.value))), "C13.R4", loop, f"{norm(w)}", f"seed is re-bound to {t}", loop.loc(w))
     run = P.func("cli/commands/run/__init__.py:run")
     ifs = [n for n in walk_body(run.node) if isinstance(n, ast.If) and "generation_seed is None" in unparse(n.test)]
     if not ifs:
